@@ -134,7 +134,11 @@ def run_shard(shard) -> Result:
             continue
         base = np.array(vals).reshape(shape)
         # scale: the same density as integer counts, as counts per frame (floats < 1) and as thirds
-        for si, scale in enumerate(SCALES if (n <= 6 or sum(vals) % 3 == 0) else SCALES[:1]):
+        use = SCALES if (n <= 6 or sum(vals) % 3 == 0) else SCALES[:1]
+        if n > 6 and len(shard['temps']) <= 3:  # quick tier, 8-voxel grid: a rotating pair of variants instead of all eight
+            use = [SCALES[0], SCALES[1 + (sum(vals) // 3) % (len(SCALES) - 1)]] if len(use) > 1 else use
+        for scale in use:
+            si = SCALES.index(scale)
             if scale == 'fortran':
                 data = np.asfortranarray(base.astype(float))
             elif scale in ('uint8', 'int16'):
